@@ -116,6 +116,9 @@ func NewJointFeldman(
 		dkgCommon: common,
 	}
 	jf.init()
+	if traced := verifTraceDKG("jf", jf, -1); traced != nil {
+		return traced, nil
+	}
 	return jf, nil
 }
 
